@@ -4,11 +4,11 @@ go 1.26.0
 
 require (
 	go.etcd.io/bbolt v1.5.0
+	go.sia.tech/core v0.21.7
 	go.sia.tech/coreutils v0.0.0
 )
 
 require (
-	go.sia.tech/core v0.21.7 // indirect
 	go.uber.org/multierr v1.11.0 // indirect
 	go.uber.org/zap v1.28.0 // indirect
 	golang.org/x/crypto v0.54.0 // indirect
